@@ -34,3 +34,11 @@ Definition scale_ok (lo hi : f64) : bool :=
   let r := fsub hi lo in
   fis_finite lo && fis_finite hi && fis_finite r && fle (fzero false) r && fis_finite (fmul pred_one r) &&
   fis_finite (scale_gene lo hi pred_one) && fle (scale_gene lo hi pred_one) hi.
+
+(* the arithmetic the operators perform before the repair, per gene, exactly as numpy evaluates it (left to right, binary64) *)
+Definition gauss_delta (mask : bool) (noise : f64) : f64 := fmul (if mask then fone else fzero false) noise.   (* binary_mask * noise *)
+Definition gauss_full (x noise : f64) (mask : bool) (lo hi : f64) : f64 := gauss_gene x (gauss_delta mask noise) lo hi.
+Definition arith_combine (a x y : f64) : f64 := fadd (fmul a x) (fmul (fsub fone a) y).                       (* alpha * x + (1 - alpha) * y *)
+Definition arith_gene (a x y lo hi : f64) : f64 := crossover_gene (arith_combine a x y) lo hi.
+Definition de_donor (f r0 r1 r2 : f64) : f64 := fadd r0 (fmul f (fsub r1 r2)).                               (* r0 + f * (r1 - r2) *)
+Definition de_full (take : bool) (f r0 r1 r2 x lo hi : f64) : f64 := de_gene take (de_donor f r0 r1 r2) x lo hi.
